@@ -41,11 +41,12 @@ type failWriter struct {
 	writes int
 	failAt int // 0 = never
 	short  bool
+	once   bool // transient failure: only write number failAt is rejected
 }
 
 func (w *failWriter) Write(p []byte) (int, error) {
 	w.writes++
-	if w.failAt > 0 && w.writes >= w.failAt {
+	if w.failAt > 0 && (w.writes == w.failAt || (w.writes > w.failAt && !w.once)) {
 		if w.short && w.writes == w.failAt && len(p) > 1 {
 			w.buf.Write(p[:len(p)/2])
 			return len(p) / 2, errInjW
@@ -63,6 +64,7 @@ type c14Replay struct {
 	Reader int    `json:"reader_fail_after"` // -1 none
 	Writer int    `json:"writer_fail_at"`    // 0 none
 	Short  bool   `json:"short"`
+	Once   bool   `json:"once"` // transient: exactly one write is rejected, later writes are accepted
 }
 
 func c14Opts(mode string) []gtree.Option {
@@ -109,7 +111,7 @@ func c14Case(c *rep.Ctx, r c14Replay, full string) {
 	if r.Reader >= 0 {
 		rd.fail = r.Reader
 	}
-	w := &failWriter{failAt: r.Writer, short: r.Short}
+	w := &failWriter{failAt: r.Writer, short: r.Short, once: r.Once}
 	if r.Reader < 0 {
 		rd = &failReader{data: r.Doc, fail: len(r.Doc)}
 		// a healthy reader ends with io.EOF
@@ -118,6 +120,7 @@ func c14Case(c *rep.Ctx, r c14Replay, full string) {
 		return
 	}
 	err, pan := c14Call(r, rd, w)
+	defer c14After(c, r, full)
 	c.Eval()
 	c.Trans(1)
 	size := len(r.Doc) + r.Reader
@@ -162,11 +165,23 @@ func c14CallEOF(r c14Replay, w *failWriter) (error, string) {
 	return err, pan
 }
 
+// c14After: after a call that met a failing reader or writer, the same call with healthy I/O gives the complete output.
+func c14After(c *rep.Ctx, r c14Replay, full string) {
+	h := r
+	h.Reader, h.Writer, h.Short, h.Once = -1, 0, false, false
+	w := &failWriter{}
+	err, pan := c14CallEOF(h, w)
+	if pan != "" || err != nil || w.buf.String() != full {
+		c.Violation("C14|call-after-a-failed-call-is-corrupted|"+r.Route+"|"+r.Mode, fmt.Sprintf("after a call with reader_fail_after=%d writer_fail_at=%d (route=%s mode=%s doc=%q) the same call with healthy reader and writer gave %q err=%v panic=%q, want %q", r.Reader, r.Writer, r.Route, r.Mode, r.Doc, w.buf.String(), err, pan, full), len(r.Doc), r)
+	}
+}
+
 func c14JudgeWriter(c *rep.Ctx, r c14Replay, w *failWriter, err error, pan string, full string) {
+	defer c14After(c, r, full)
 	c.Eval()
 	c.Trans(1)
 	size := len(r.Doc) + r.Writer
-	desc := fmt.Sprintf("route=%s mode=%s doc=%q writer fails at write %d (short=%v)", r.Route, r.Mode, r.Doc, r.Writer, r.Short)
+	desc := fmt.Sprintf("route=%s mode=%s doc=%q writer fails at write %d (short=%v transient=%v)", r.Route, r.Mode, r.Doc, r.Writer, r.Short, r.Once)
 	if pan != "" {
 		c.Violation("C14|panic-on-writer-failure|"+r.Mode, desc+": "+pan, size, r)
 		return
@@ -241,6 +256,9 @@ func init() {
 							c.Nontrivial()
 							c14Case(c, r, full)
 						}
+						r := base
+						r.Writer, r.Once = j, true
+						c14Case(c, r, full)
 					}
 					if route == "md" {
 						for i := 0; i < len(doc); i++ {
